@@ -798,8 +798,12 @@ func checkC04Hist(c HistCase, o *Obs) error {
 			cn.SetReadDeadline(time.Time{})
 		}
 	}
+	readStart := time.Now()
 	rt := RunRead(conn, c.Reads, nComplete+3, lens, 5)
 	afterReadError = nil
+	if err := checkReplyDeadlines(tr.Log, 0, readStart); err != nil {
+		return err
+	}
 
 	if len(rt.Msgs) < nComplete {
 		return fmt.Errorf("%d messages were completed before the violating frame, only %d delivered (final error %v)", nComplete, len(rt.Msgs), rt.Final)
